@@ -222,6 +222,20 @@ def array_family(thorough):
                     fam.append(('one:n%d:%s:%s:%s' % (
                         n, ''.join(map(str, tags)), out, len(consts)),
                         [('a', n, tags, props_small, out, consts)]))
+        # every C type x stride x default at once, more particle counts and
+        # tag patterns, every output-list shape, long / empty constants
+        for n, tags in ((1, [2]), (2, [0, 1]), (4, [0, 2, 1, 0]),
+                        (7, [0, 0, 2, 0, 1, 2, 0])):
+            for out in (None, (), tuple(p[0] for p in props_all[::3]),
+                        tuple(p[0] for p in props_all[1::2]),
+                        tuple(p[0] for p in props_all)):
+                for consts in ({}, {'k': [1.0]},
+                               {'c0': [], 'c200': [0.25 * i
+                                                   for i in range(200)]}):
+                    fam.append(('alltypes:n%d:%s:%d:%d' % (
+                        n, ''.join(map(str, tags)), len(out or ()) if out
+                        is not None else -1, len(consts)),
+                        [('a', n, tags, props_all, out, consts)]))
         # three arrays, every assignment of three output lists
         for o1, o2, o3 in itertools.product(outs[:3], repeat=3):
             fam.append(('three:%s:%s:%s' % (o1, o2, o3),
